@@ -133,8 +133,27 @@ def mutate(src, idx, kind):
     return ast.unparse(tree) + "\n"
 
 
+class _Hung:
+    returncode = 124
+    stdout = ""
+    stderr = "timeout"
+
+
 def run(cmd, **kw):
-    return subprocess.run(cmd, capture_output=True, text=True, **kw)
+    """Every check / test run is bounded: a mutant that makes tealer loop is recorded as rc=124 ("hang")."""
+    import signal
+    kw.setdefault("timeout", 700)
+    t = kw.pop("timeout")
+    p = subprocess.Popen(cmd, stdout=subprocess.PIPE, stderr=subprocess.PIPE, text=True, start_new_session=True, **kw)
+    try:
+        o, e = p.communicate(timeout=t)
+    except subprocess.TimeoutExpired:
+        os.killpg(p.pid, signal.SIGKILL)
+        p.communicate()
+        return _Hung()
+    r = _Hung()
+    r = type("R", (), {"returncode": p.returncode, "stdout": o, "stderr": e})()
+    return r
 
 
 def main():
@@ -199,6 +218,9 @@ def main():
                     if p.returncode == 1 and nv:
                         detected = True
                         break
+                    if p.returncode == 124:
+                        rec["hang"] = True
+                        break
                 if not detected and "C17" not in rec["checks"] and any(v["rc"] == 2 for v in rec["checks"].values()):
                     # the checks were inconclusive because tealer raised: that is C17's subject
                     env = dict(os.environ, VT_REPO=wt, VT_SCALE=scale, PYTHONPATH=ROOT, VT_PROBES="0")
@@ -214,7 +236,7 @@ def main():
                 log.write(json.dumps(rec) + "\n")
                 log.flush()
                 print("%-70s #%d %-9s %s %s" % (path[-70:], idx, kind, "DETECTED" if detected else "missed  ",
-                                                 rec.get("tests", "")), flush=True)
+                                                 rec.get("tests", "") + (" HANG" if rec.get("hang") else "")), flush=True)
     finally:
         subprocess.run(["git", "-C", "/repo", "worktree", "remove", "--force", wt])
     return 0
